@@ -388,9 +388,16 @@ def run(ctx):
     accessor(ctx)
     joint_zones(ctx)
     attr_histories(ctx)
+    from . import spell_common
+    spell_common.run(ctx, "C16")
+
 
 
 def replay(sub, case, p):
+    if case.get("kind") == "spelling":
+        from . import spell_common
+        spell_common.run(p, "C16")
+        return
     zm = _zonal()
     if case["kind"] == "small":
         shape = tuple(case["shape"])
